@@ -281,7 +281,11 @@ def compile_error_summary(out):
 
 def write_evidence(pid, ev):
     os.makedirs(os.path.join(VERIF, "evidence"), exist_ok=True)
-    with open(os.path.join(VERIF, "evidence", pid + ".json"), "w") as f:
+    # partial runs and runs against a private copy of the repository (seeded-mutation evaluation) never touch the
+    # committed evidence, which must describe /repo itself
+    dev = os.environ.get("VERIF_ONLY") or os.path.realpath(REPO) != "/repo"
+    name = (".dev-" if dev else "") + pid + ".json"
+    with open(os.path.join(VERIF, "evidence", name), "w") as f:
         json.dump(ev, f, indent=1, sort_keys=False)
         f.write("\n")
 
@@ -368,6 +372,12 @@ def run_property(pid):
     known = load_known()
     ov = Overlay(pid)
     harnesses = [h for h in spec.get("harnesses", []) if tier in h.get("tiers", ["quick", "thorough"])]
+    # development aid: VERIF_ONLY=<regex> runs a subset of the Kani harnesses (including ones registered for no
+    # tier) and no mirsmt entries; the evidence of such a partial run goes to evidence/.dev-<id>.json
+    only = os.environ.get("VERIF_ONLY")
+    if only:
+        harnesses = [h for h in spec.get("harnesses", []) if re.search(only, h["fn"])]
+        spec = dict(spec, mirsmt=[])
     results = {}
     inconclusive = []
     violations = []  # (harness_fn, failed_checks, replay_path)
